@@ -77,6 +77,7 @@ func GenSet(tier string) []GenSpec {
 		probe("naming"),
 		probe("noargs"),
 		probe("models"),
+		probeOverlay("modelsfn", "models", map[string]string{"use_function_syntax_for_execution_context": "true"}),
 		probeOverlay("namingfn", "naming", map[string]string{"use_function_syntax_for_execution_context": "true"}),
 		probeOverlay("customrootsopt", "customroots", map[string]string{"nullable_input_omittable": "true", "return_pointers_in_unmarshalinput": "true", "call_argument_directives_with_null": "true", "omit_slice_element_pointers": "true"}),
 	}
